@@ -87,7 +87,7 @@ void drv_linux_deliver(int iface, const uint8_t *frame, size_t len) {
 
 void drv_linux(const pev *e, int iface) {
     static uint8_t buf[VF_MAXMTU + 64];
-    if (e->opcode == 0xF0 && e->tos == 0xEE) { W.env.icon_epoch ^= 1; return; }   /* environment event, not a frame */
+    if (e->opcode == 0xF0 && e->tos == 0xEE) { W.env.icon_epoch = (W.env.icon_epoch + 1) % 3; return; }   /* environment event, not a frame: icon A -> icon B -> empty icon -> icon A */
     /* complete frames into a zeroed buffer: every byte the core reads was received */
     vf_iface *f = &W.iface[iface];
     memset(f->recv, 0, f->recv_prev_len);
